@@ -59,6 +59,7 @@ func runC05(c *Ctx) {
 	c05R3(c)
 	c05R4(c)
 	c05R5(c)
+	c05R5NotFound(c)
 }
 
 // moduleFuncs: every source function of the repository (all packages).
@@ -119,56 +120,29 @@ func c05R1Verify(c *Ctx) {
 	}
 	n0Edges, _ := c05NotPositiveEdges(fn, isPath(recv+".base*.N*"))
 	eofEdges, _ := c05EqEdges(fn, isPath(recv+".err*"), func(v ssa.Value) bool { return c05IsGlobalLoad(v, "io.EOF") })
-	// trailing-data probe: a call that receives vr.base.R
-	var eEdges []Edge
-	probes := 0
-	for _, call := range Calls(fn, func(string) bool { return true }) {
-		argIdx := -1
-		for i, a := range call.Common().Args {
-			if c05LoadPath(a) == recv+".base*.R*" {
-				argIdx = i
-			}
-		}
-		if argIdx < 0 {
-			continue
-		}
-		probes++
-		name := CalleeName(call)
-		switch {
-		case name == "io.ReadFull" || name == "io.ReadAtLeast":
-			if argIdx != 0 {
-				c.Undecided(R, tn+"|trailing-data-probe", call.Pos(), "vr.base.R passed to "+name+" in an unexpected position")
+	// trailing-data probe: a read of vr.base.R (directly, through the ensureEOF-role helper, or through a method of vr that does so)
+	eEdges, probes, undec := c05ProbeEdges(c, R, fn, func(v ssa.Value) bool { return c05LoadPath(v) == recv+".base*.R*" }, fn.Params[0], 0)
+	if undec != "" {
+		c.Undecided(R, tn+"|trailing-data-probe", fn.Pos(), undec)
+	} else if probes == 0 {
+		c.Violation(R, tn+"|trailing-data-probe", fn.Pos(), "Verify never reads from vr.base.R: data beyond Size is not detected (ReadAll/Push would accept a stream with trailing bytes)")
+	} else {
+		c.OK(R, tn+"|trailing-data-probe", fn.Pos(), "Verify probes vr.base.R for end of stream")
+	}
+	// digest check: the true edge of vr.verifier.Verified(), in Verify or in a method of vr whose nil result implies it
+	dEdges := c05OwnerEventEdges(fn, fn.Params[0], func(g *ssa.Function, owner *ssa.Parameter) []Edge {
+		var out []Edge
+		for _, call := range CallsTo(g, "(digest.Verifier).Verified") {
+			if c05LoadPath(call.Common().Value) != "P:"+owner.Name()+".verifier*" {
 				continue
 			}
-			if e := ErrOf(call); e != nil {
-				al := Aliases(e)
-				eq, _ := c05EqEdges(fn, func(v ssa.Value) bool { return al[v] }, func(v ssa.Value) bool { return c05IsGlobalLoad(v, "io.EOF") })
-				eEdges = append(eEdges, eq...)
+			if v := call.Value(); v != nil {
+				te, _ := BoolTests(g, Aliases(v))
+				out = append(out, te...)
 			}
-			c.OK(R, tn+"|trailing-data-probe", call.Pos(), "Verify probes vr.base.R with "+name+" and compares the error with io.EOF")
-		case StaticCallee(call) != nil && inModule(StaticCallee(call)):
-			g := StaticCallee(call)
-			if c05EOFProbeSound(c, R, g, argIdx) {
-				eEdges = append(eEdges, c05NilEdgesOf(call)...)
-			}
-		default:
-			c.Undecided(R, tn+"|trailing-data-probe", call.Pos(), "vr.base.R handed to "+name+": not a recognised end-of-stream probe")
 		}
-	}
-	if probes == 0 {
-		c.Violation(R, tn+"|trailing-data-probe", fn.Pos(), "Verify never reads from vr.base.R: data beyond Size is not detected (ReadAll/Push would accept a stream with trailing bytes)")
-	}
-	// digest check
-	var dEdges []Edge
-	for _, call := range CallsTo(fn, "(digest.Verifier).Verified") {
-		if c05LoadPath(call.Common().Value) != recv+".verifier*" {
-			continue
-		}
-		if v := call.Value(); v != nil {
-			te, _ := BoolTests(fn, Aliases(v))
-			dEdges = append(dEdges, te...)
-		}
-	}
+		return out
+	}, 0)
 	paths, ok := c05EnumPaths(fn, nil)
 	if !ok {
 		c.Undecided(R, tn+"|paths", fn.Pos(), "path budget exceeded")
@@ -302,57 +276,165 @@ func boolKeys(m map[string]token.Pos) map[string]bool {
 	return o
 }
 
-// c05EOFProbeSound checks the ensureEOF-role helper g: it returns nil only
-// when io.ReadFull on its reader parameter reports exactly io.EOF.
-func c05EOFProbeSound(c *Ctx, R string, g *ssa.Function, argIdx int) bool {
-	gn := FnName(g)
-	if argIdx >= len(g.Params) || ErrResultIndex(g.Signature) < 0 {
-		c.Undecided(R, gn+"|eof-probe", g.Pos(), "helper receiving vr.base.R has no error result")
-		return false
+// c05OwnerEventEdges: the edges of fn on which an event about `owner` (a
+// pointer parameter, e.g. the verify reader) is established: the direct edges,
+// plus the err==nil edges of calls to same-package helpers that receive the
+// owner and return a nil error only behind such an edge of their own.
+func c05OwnerEventEdges(fn *ssa.Function, owner *ssa.Parameter, direct func(g *ssa.Function, owner *ssa.Parameter) []Edge, depth int) []Edge {
+	out := direct(fn, owner)
+	if depth >= 3 {
+		return out
 	}
-	rd := g.Params[argIdx]
-	var eq []Edge
-	reads := 0
-	for _, call := range Calls(g, func(string) bool { return true }) {
-		uses := false
-		for _, a := range call.Common().Args {
-			if strip(a) == ssa.Value(rd) {
-				uses = true
-			}
-		}
-		if !uses {
+	for _, call := range Calls(fn, func(string) bool { return true }) {
+		h := c05Helper(call, fn)
+		if h == nil || ErrResultIndex(h.Signature) < 0 {
 			continue
 		}
-		n := CalleeName(call)
-		if n != "io.ReadFull" && n != "io.ReadAtLeast" {
-			c.Undecided(R, gn+"|eof-probe", call.Pos(), "the stream is probed with "+n+": only io.ReadFull/io.ReadAtLeast (io.EOF iff zero bytes) are recognised")
-			return false
+		if _, isDefer := call.(*ssa.Defer); isDefer {
+			continue
 		}
-		reads++
-		if e := ErrOf(call); e != nil {
-			al := Aliases(e)
-			q, _ := c05EqEdges(g, func(v ssa.Value) bool { return al[v] }, func(v ssa.Value) bool { return c05IsGlobalLoad(v, "io.EOF") })
-			eq = append(eq, q...)
+		for i, a := range call.Common().Args {
+			if strip(a) != ssa.Value(owner) || i >= len(h.Params) {
+				continue
+			}
+			sub := c05OwnerEventEdges(h, h.Params[i], direct, depth+1)
+			if len(sub) == 0 || c05DeferKeepsError(h) != "" {
+				continue
+			}
+			sound := true
+			for _, at := range c05MaybeNilAtoms(h) {
+				if !c05AtomMustPass(at, newCut().Edges(sub...)) {
+					sound = false
+				}
+			}
+			if sound {
+				out = append(out, c05NilEdgesOf(call)...)
+			}
 		}
-		// the probe buffer must be able to hold a byte
-		if len(call.Common().Args) > 1 {
-			if sl, ok := call.Common().Args[1].(*ssa.Slice); ok {
-				if pt, ok := sl.X.Type().Underlying().(*types.Pointer); ok {
-					if at, ok := pt.Elem().Underlying().(*types.Array); ok && at.Len() == 0 {
-						c.Violation(R, gn+"|eof-probe", call.Pos(), "probe buffer has length 0")
-						return false
+	}
+	return out
+}
+
+// c05ProbeEdges returns the edges of fn on which the stream satisfying
+// isReader is known to be exhausted: io.ReadFull/ReadAtLeast on it reported
+// exactly io.EOF, or a helper that returns nil only in that case returned nil.
+// owner (may be nil) is the value whose field the reader is: a helper that
+// receives the owner (a method of the verify reader) is followed too.
+func c05ProbeEdges(c *Ctx, R string, fn *ssa.Function, isReader func(v ssa.Value) bool, owner ssa.Value, depth int) (edges []Edge, probes int, undecided string) {
+	isEOF := func(v ssa.Value) bool { return c05IsGlobalLoad(v, "io.EOF") }
+	for _, call := range Calls(fn, func(string) bool { return true }) {
+		if _, isDefer := call.(*ssa.Defer); isDefer {
+			continue
+		}
+		args := call.Common().Args
+		argIdx, ownIdx := -1, -1
+		for i, a := range args {
+			if isReader(a) {
+				argIdx = i
+			}
+			if owner != nil && strip(a) == owner {
+				ownIdx = i
+			}
+		}
+		name := CalleeName(call)
+		g := StaticCallee(call)
+		switch {
+		case argIdx >= 0 && (name == "io.ReadFull" || name == "io.ReadAtLeast"):
+			probes++
+			if argIdx != 0 {
+				return nil, probes, "the stream is passed to " + name + " in an unexpected position"
+			}
+			if len(args) > 1 {
+				if sl, ok := args[1].(*ssa.Slice); ok {
+					if pt, ok := sl.X.Type().Underlying().(*types.Pointer); ok {
+						if at, ok := pt.Elem().Underlying().(*types.Array); ok && at.Len() == 0 {
+							return nil, probes, "probe buffer has length 0"
+						}
+					}
+				}
+			}
+			if e := ErrOf(call); e != nil {
+				al := Aliases(e)
+				eq, _ := c05EqEdges(fn, func(v ssa.Value) bool { return al[v] }, isEOF)
+				edges = append(edges, eq...)
+			}
+		case argIdx >= 0 && g != nil && inModule(g) && len(g.Blocks) > 0 && depth < 3 && argIdx < len(g.Params) && ErrResultIndex(g.Signature) >= 0:
+			probes++
+			rd := g.Params[argIdx]
+			if c05ProbeNilSound(c, R, g, func(v ssa.Value) bool { return strip(v) == ssa.Value(rd) }, nil, depth+1) {
+				edges = append(edges, c05NilEdgesOf(call)...)
+			}
+		case argIdx >= 0:
+			probes++
+			return nil, probes, "the stream is handed to " + name + ": only io.ReadFull/io.ReadAtLeast (io.EOF iff zero bytes) and in-module helpers built on them are recognised as end-of-stream probes"
+		case ownIdx >= 0 && g != nil && len(g.Blocks) > 0 && c05Helper(call, fn) != nil && depth < 3 && ownIdx < len(g.Params) && ErrResultIndex(g.Signature) >= 0:
+			// a method of the reader's owner: look for the probe inside
+			op := g.Params[ownIdx]
+			path := "P:" + op.Name() + ".base*.R*"
+			inner := func(v ssa.Value) bool { return c05LoadPath(v) == path }
+			_, n, _ := c05ProbeEdges(c, R, g, inner, op, depth+1)
+			if n == 0 {
+				continue
+			}
+			probes++
+			if c05ProbeNilSound(c, R, g, inner, op, depth+1) {
+				edges = append(edges, c05NilEdgesOf(call)...)
+			}
+		}
+	}
+	return edges, probes, ""
+}
+
+// c05ProbeNilSound: g returns a nil error only on an edge where the stream is
+// known to be exhausted.
+func c05ProbeNilSound(c *Ctx, R string, g *ssa.Function, isReader func(v ssa.Value) bool, owner ssa.Value, depth int) bool {
+	gn := FnName(g)
+	edges, probes, undec := c05ProbeEdges(c, R, g, isReader, owner, depth)
+	if undec != "" {
+		c.Undecided(R, gn+"|eof-probe", g.Pos(), undec)
+		return false
+	}
+	if probes == 0 {
+		c.Violation(R, gn+"|eof-probe", g.Pos(), "the helper never reads from the stream it is given")
+		return false
+	}
+	ok := c05DeferKeepsError(g) == ""
+	// returning the verdict of a sound inner helper as is
+	direct := map[ssa.Value]bool{}
+	for _, call := range Calls(g, func(string) bool { return true }) {
+		if len(c05NilEdgesOf(call)) == 0 && ErrOf(call) != nil {
+			h := StaticCallee(call)
+			for _, a := range call.Common().Args {
+				if isReader(a) && h != nil && inModule(h) && len(h.Blocks) > 0 {
+					for al := range Aliases(ErrOf(call)) {
+						direct[al] = true
 					}
 				}
 			}
 		}
 	}
-	if reads == 0 {
-		c.Violation(R, gn+"|eof-probe", g.Pos(), "the helper never reads from the stream it is given")
-		return false
-	}
-	ok := true
 	for _, a := range c05MaybeNilAtoms(g) {
-		if !c05AtomMustPass(a, newCut().Edges(eq...)) {
+		if direct[a.Val] {
+			// `return ensureEOF(r)`: sound iff the callee is
+			if call, isCall := a.Val.(*ssa.Call); isCall {
+				h := StaticCallee(call)
+				idx := -1
+				for i, x := range call.Call.Args {
+					if isReader(x) {
+						idx = i
+					}
+				}
+				if h != nil && idx >= 0 && idx < len(h.Params) && depth < 3 {
+					rd := h.Params[idx]
+					if c05ProbeNilSound(c, R, h, func(v ssa.Value) bool { return strip(v) == ssa.Value(rd) }, nil, depth+1) {
+						continue
+					}
+				}
+			}
+			ok = false
+			continue
+		}
+		if !c05AtomMustPass(a, newCut().Edges(edges...)) {
 			ok = false
 		}
 	}
@@ -751,52 +833,77 @@ func c05R2Memory(c *Ctx) {
 		return
 	}
 	tn := FnName(fn)
+	root := c05Root(fn)
 	n := 0
-	for _, u := range c05FieldUses([]*ssa.Function{fn}, "~/internal/cas.Memory", "content") {
-		call, ok := u.Use.(ssa.CallInstruction)
-		if !ok || !c05SyncMapWriters[CalleeName(call)] {
-			continue
-		}
-		n++
-		args := call.Common().Args
-		key, val := args[1], args[2]
-		// value = result 0 of ReadAll
-		var ra *ssa.Call
-		if e, ok := strip(val).(*ssa.Extract); ok && e.Index == 0 {
-			if rc, ok := e.Tuple.(*ssa.Call); ok && CalleeName(rc) == c05ReadAll {
-				ra = rc
+	for _, e := range c05TreeEnvs(root, 3) {
+		for _, u := range c05FieldUses([]*ssa.Function{e.Fn}, "~/internal/cas.Memory", "content") {
+			call, ok := u.Use.(ssa.CallInstruction)
+			if !ok || !c05SyncMapWriters[CalleeName(call)] {
+				continue
 			}
-		}
-		c.Check(R, tn+"|stored-value-is-verified-bytes", call.Pos(), ra != nil,
-			ifelse(ra != nil, "the stored value is the buffer returned by content.ReadAll", "the value put into the content map is not the result of content.ReadAll (unverified bytes become fetchable)"))
-		if ra == nil {
-			continue
-		}
-		ok2 := MustPass(call.(ssa.Instruction), newCut().Edges(c05NilEdgesOf(ra)...))
-		c.Check(R, tn+"|store-dominated-by-verified-read", call.Pos(), ok2,
-			ifelse(ok2, "every path to "+CalleeName(call)+" takes the err==nil edge of ReadAll", "the content map is written on a path where ReadAll did not succeed"))
-		dp := c05ParamOf(ra.Call.Args[1])
-		okKey := false
-		for _, r := range Roots(c05Unspill(key)) {
-			if kc, ok := strip(r).(*ssa.Call); ok && CalleeName(kc) == "~/internal/descriptor.FromOCI" && dp != nil && c05ParamOf(kc.Call.Args[0]) == dp {
-				okKey = true
-			} else {
+			n++
+			args := call.Common().Args
+			key, kat := e.up(args[1])
+			val, vat := e.up(args[2])
+			// value = result 0 of ReadAll
+			var ra *ssa.Call
+			if ex, ok := strip(val).(*ssa.Extract); ok && ex.Index == 0 {
+				if rc, ok := ex.Tuple.(*ssa.Call); ok && CalleeName(rc) == c05ReadAll {
+					ra = rc
+				}
+			}
+			c.Check(R, tn+"|stored-value-is-verified-bytes", call.Pos(), ra != nil,
+				ifelse(ra != nil, "the stored value is the buffer returned by content.ReadAll", "the value put into the content map is not the result of content.ReadAll (unverified bytes become fetchable)"))
+			if ra == nil {
+				continue
+			}
+			// dominance: at the level where ReadAll lives, every path to the store (or to the call leading to it) takes its err==nil edge
+			ok2 := false
+			var tgt ssa.Instruction = call.(ssa.Instruction)
+			for lv := e; lv != nil; lv = lv.Parent {
+				if lv == vat {
+					ok2 = MustPass(tgt, newCut().Edges(c05NilEdgesOf(ra)...))
+					break
+				}
+				if lv.Call == nil {
+					break
+				}
+				tgt = lv.Call.(ssa.Instruction)
+			}
+			c.Check(R, tn+"|store-dominated-by-verified-read", call.Pos(), ok2,
+				ifelse(ok2, "every path to "+CalleeName(call)+" takes the err==nil edge of ReadAll", "the content map is written on a path where ReadAll did not succeed"))
+			dv, dat := vat.up(ra.Call.Args[1])
+			okKey := false
+			for _, r := range Roots(c05Unspill(key)) {
 				okKey = false
-				break
+				if kc, ok := strip(r).(*ssa.Call); ok && CalleeName(kc) == "~/internal/descriptor.FromOCI" {
+					if kv, kvat := kat.up(kc.Call.Args[0]); kvat == dat && kv == dv {
+						if _, isP := kv.(*ssa.Parameter); isP {
+							okKey = true
+						}
+					}
+				}
+				if !okKey {
+					break
+				}
 			}
-		}
-		c.Check(R, tn+"|key-is-same-descriptor", call.Pos(), okKey,
-			ifelse(okKey, "the key is descriptor.FromOCI of the descriptor ReadAll verified against", "the map key is not derived from the descriptor the bytes were verified against"))
-		isParam := false
-		for _, p := range fn.Params {
-			if derivesFromAny(ra.Call.Args[0], map[ssa.Value]bool{p: true}, 0) && !c05IsOCIDescriptor(p.Type()) && p != fn.Params[0] {
-				isParam = true
+			c.Check(R, tn+"|key-is-same-descriptor", call.Pos(), okKey,
+				ifelse(okKey, "the key is descriptor.FromOCI of the descriptor ReadAll verified against", "the map key is not derived from the descriptor the bytes were verified against"))
+			isParam := false
+			for _, src := range c05ReaderSources(ra.Call.Args[0], 0) {
+				if w, at := vat.up(src); at.isRoot() {
+					for _, p := range fn.Params[1:] {
+						if w == ssa.Value(p) && !c05IsOCIDescriptor(p.Type()) {
+							isParam = true
+						}
+					}
+				}
 			}
+			c.Check(R, tn+"|reads-callers-stream", call.Pos(), isParam, "ReadAll consumes the reader parameter of Push")
 		}
-		c.Check(R, tn+"|reads-callers-stream", call.Pos(), isParam, "ReadAll consumes the reader parameter of Push")
 	}
 	if n == 0 {
-		c.LostAnchor(R, tn+": write to Memory.content")
+		c.LostAnchor(R, tn+": write to Memory.content (in Push or a helper it calls)")
 	}
 }
 
@@ -852,73 +959,110 @@ func c05R2OCI(c *Ctx) {
 		c.LostAnchor(R, "blob-path constructor (joins \"blobs\" with a digest) in ~/content/oci")
 		return
 	}
-	renames := CallsTo(fn, "os.Rename", "os.Link", "os.Symlink")
+	root := c05Root(fn)
+	type site struct {
+		call ssa.CallInstruction
+		env  *c05Env
+	}
+	var renames []site
+	for _, e := range c05TreeEnvs(root, 3) {
+		for _, rn := range CallsTo(e.Fn, "os.Rename", "os.Link", "os.Symlink") {
+			renames = append(renames, site{rn, e})
+		}
+	}
 	if len(renames) == 0 {
-		c.LostAnchor(R, tn+": publication effect (os.Rename into blobs/)")
+		c.LostAnchor(R, tn+": publication effect (os.Rename into blobs/, in Push or a helper it calls)")
 		return
 	}
-	for _, rn := range renames {
+	// dominated: on every path from Push's entry to the target (which lives in
+	// node e), level `at` passes the cut before entering the next level.
+	dominated := func(e *c05Env, target ssa.Instruction, at *c05Env, ct *cut) bool {
+		tgt := target
+		for lv := e; lv != nil; lv = lv.Parent {
+			if lv == at {
+				return MustPass(tgt, ct)
+			}
+			if lv.Call == nil {
+				return false
+			}
+			tgt = lv.Call.(ssa.Instruction)
+		}
+		return false
+	}
+	for _, rs := range renames {
+		rn, e := rs.call, rs.env
 		src, dst := rn.Common().Args[0], rn.Common().Args[1]
 		// destination: blob path of the same descriptor
 		okDst := false
-		for _, call := range Calls(fn, func(string) bool { return true }) {
+		dv, dat := e.up(dst)
+		for _, call := range Calls(dat.Fn, func(string) bool { return true }) {
 			g := StaticCallee(call)
 			if g == nil || !bp[g] {
 				continue
 			}
 			r0 := ResultOf(call, 0)
-			if r0 != nil && derivesFromAny(dst, map[ssa.Value]bool{r0: true}, 0) && c05FieldOfParam(call.Common().Args[0], "Digest") == expected {
-				okDst = true
+			if r0 == nil || !derivesFromAny(dv, map[ssa.Value]bool{r0: true}, 0) {
+				continue
+			}
+			if p := c05FieldOfParam(call.Common().Args[0], "Digest"); p != nil {
+				if w, at := dat.up(p); at.isRoot() && w == ssa.Value(expected) {
+					okDst = true
+				}
 			}
 		}
 		c.Check(R, tn+"|target-is-blob-path-of-same-descriptor", rn.Pos(), okDst,
 			ifelse(okDst, "the rename target is built from blobPath(expected.Digest)", "the rename target is not the blob path of the descriptor being pushed"))
 		// source: result of the ingest helper, on its success edge
+		sv, sat := e.up(src)
 		var ig *ssa.Call
-		if e, ok := strip(src).(*ssa.Extract); ok && e.Index == 0 {
-			if call, ok := e.Tuple.(*ssa.Call); ok && StaticCallee(call) != nil && inModule(StaticCallee(call)) {
+		if ex, ok := strip(sv).(*ssa.Extract); ok && ex.Index == 0 {
+			if call, ok := ex.Tuple.(*ssa.Call); ok && StaticCallee(call) != nil && inModule(StaticCallee(call)) {
 				ig = call
 			}
 		}
 		if ig == nil {
-			// inlined shape: the renamed path is fp.Name() of a file written in Push itself
-			if nc, isCall := strip(src).(*ssa.Call); isCall && CalleeName(nc) == "(*os.File).Name" && len(CallsTo(fn, c05CopyBuf)) > 0 {
-				c.OK(R, tn+"|rename-source-is-ingest-result", rn.Pos(), "the renamed file is written and verified in Push itself (ingest inlined)")
-				var nilE []Edge
-				for _, cb := range CallsTo(fn, c05CopyBuf) {
-					nilE = append(nilE, c05NilEdgesOf(cb)...)
+			// inlined shape: the renamed path is fp.Name() of a file written and verified at that level
+			copies := c05CopyCalls(sat.Fn)
+			if nc, isCall := strip(sv).(*ssa.Call); isCall && CalleeName(nc) == "(*os.File).Name" && len(copies) > 0 {
+				c.OK(R, tn+"|rename-source-is-ingest-result", rn.Pos(), "the renamed file is written and verified in "+FnName(sat.Fn)+" itself (ingest inlined)")
+				ct := newCut()
+				for _, cp := range copies {
+					ct.Edges(c05NilEdgesOf(cp.Call)...)
 				}
-				ok := MustPass(rn.(ssa.Instruction), newCut().Edges(nilE...))
+				ok := dominated(e, rn.(ssa.Instruction), sat, ct)
 				c.Check(R, tn+"|rename-dominated-by-successful-ingest", rn.Pos(), ok,
-					ifelse(ok, "every path to the rename takes the err==nil edge of CopyBuffer", "the rename into blobs/ is reachable although the verified copy failed"))
-				c05IngestRole(c, R, fn, expected, reader, []ssa.Value{nc})
+					ifelse(ok, "every path to the rename takes the err==nil edge of the verified copy", "the rename into blobs/ is reachable although the verified copy failed"))
+				if sat.isRoot() {
+					c05IngestRole(c, R, fn, expected, reader, []ssa.Value{nc})
+				} else {
+					c.Undecided(R, tn+"|rename-source-is-ingest-result", rn.Pos(), "the verified write is inlined into the helper "+FnName(sat.Fn)+" rather than Push or an ingest helper")
+				}
 			} else {
-				c.Undecided(R, tn+"|rename-source-is-ingest-result", rn.Pos(), "the file renamed into blobs/ is "+describe(src)+": neither the result of an in-module ingest helper nor Name() of a file verified in Push")
+				c.Undecided(R, tn+"|rename-source-is-ingest-result", rn.Pos(), "the file renamed into blobs/ is "+describe(sv)+": neither the result of an in-module ingest helper nor Name() of a file verified in Push")
 			}
 			continue
 		}
 		c.OK(R, tn+"|rename-source-is-ingest-result", rn.Pos(), "the renamed file is the path returned by the ingest helper "+FnName(StaticCallee(ig)))
-		ok := MustPass(rn.(ssa.Instruction), newCut().Edges(c05NilEdgesOf(ig)...))
+		ok := dominated(e, rn.(ssa.Instruction), sat, newCut().Edges(c05NilEdgesOf(ig)...))
 		c.Check(R, tn+"|rename-dominated-by-successful-ingest", rn.Pos(), ok,
 			ifelse(ok, "every path to the rename takes the err==nil edge of the ingest helper", "the rename into blobs/ is reachable although ingest failed (unverified or partial content becomes visible)"))
 		// arguments of ingest are Push's own descriptor and reader
 		g := StaticCallee(ig)
 		var gDesc, gRd *ssa.Parameter
-		okArgs := true
 		for i, a := range ig.Call.Args {
 			if i >= len(g.Params) {
 				break
 			}
-			if c05ParamOf(a) == expected {
-				gDesc = g.Params[i]
-			}
-			if strip(a) == ssa.Value(reader) {
-				gRd = g.Params[i]
+			if w, at := sat.up(a); at.isRoot() {
+				if w == ssa.Value(expected) {
+					gDesc = g.Params[i]
+				}
+				if strip(w) == ssa.Value(reader) {
+					gRd = g.Params[i]
+				}
 			}
 		}
-		if gDesc == nil || gRd == nil {
-			okArgs = false
-		}
+		okArgs := gDesc != nil && gRd != nil
 		c.Check(R, tn+"|ingest-gets-callers-descriptor-and-stream", ig.Pos(), okArgs, "ingest(expected, content) receives Push's own descriptor and reader")
 		if okArgs {
 			var pathVals []ssa.Value
@@ -933,7 +1077,7 @@ func c05R2OCI(c *Ctx) {
 // c05IngestRole checks the helper that writes the stream to a temp file.
 func c05IngestRole(c *Ctx, R string, g *ssa.Function, desc, rd *ssa.Parameter, pathVals []ssa.Value) {
 	gn := FnName(g)
-	cbs := CallsTo(g, c05CopyBuf)
+	cbs := c05CopyCalls(g)
 	if len(cbs) == 0 {
 		c.Violation(R, gn+"|nil-error-implies-verified-copy", g.Pos(), "the ingest helper does not copy through ioutil.CopyBuffer (no verification while writing)")
 		return
@@ -941,17 +1085,25 @@ func c05IngestRole(c *Ctx, R string, g *ssa.Function, desc, rd *ssa.Parameter, p
 	var nilE []Edge
 	okDesc := true
 	var dsts []ssa.Value
+	cbRes := map[ssa.Value]bool{}
 	for _, cb := range cbs {
-		nilE = append(nilE, c05NilEdgesOf(cb)...)
-		a := cb.Common().Args
-		if c05ParamOf(a[3]) != desc || strip(a[1]) != ssa.Value(rd) {
+		nilE = append(nilE, c05NilEdgesOf(cb.Call)...)
+		if c05ParamOf(cb.Desc) != desc || strip(cb.Src) != ssa.Value(rd) {
 			okDesc = false
 		}
-		dsts = append(dsts, strip(a[0]))
+		dsts = append(dsts, strip(cb.Dst))
+		if v := cb.Call.Value(); v != nil {
+			for a := range Aliases(v) {
+				cbRes[a] = true
+			}
+		}
 	}
 	ok := true
 	detail := ""
 	for _, a := range c05MaybeNilAtoms(g) {
+		if cbRes[a.Val] || cbRes[strip(a.Val)] {
+			continue
+		}
 		if !c05AtomMustPass(a, newCut().Edges(nilE...)) {
 			ok = false
 			detail = "return at " + c.P.Pos(a.Ret.Pos())
@@ -960,10 +1112,10 @@ func c05IngestRole(c *Ctx, R string, g *ssa.Function, desc, rd *ssa.Parameter, p
 	if why := c05DeferKeepsError(g); why != "" {
 		ok, detail = false, why
 	}
-	c.Check(R, gn+"|nil-error-implies-verified-copy", cbs[0].Pos(), ok,
-		ifelse(ok, "every return with a possibly-nil error lies behind CopyBuffer()==nil; deferred closures cannot clear the error", "ingest can report success without a successful verified copy: "+detail))
-	c.Check(R, gn+"|copy-verifies-callers-descriptor", cbs[0].Pos(), okDesc,
-		ifelse(okDesc, "CopyBuffer verifies the parameter stream against the parameter descriptor", "CopyBuffer does not verify the caller's stream against the caller's descriptor"))
+	c.Check(R, gn+"|nil-error-implies-verified-copy", cbs[0].Call.Pos(), ok,
+		ifelse(ok, "every return with a possibly-nil error lies behind the verified copy's err==nil edge; deferred code cannot clear the error", "ingest can report success without a successful verified copy: "+detail))
+	c.Check(R, gn+"|copy-verifies-callers-descriptor", cbs[0].Call.Pos(), okDesc,
+		ifelse(okDesc, "the copy verifies the parameter stream against the parameter descriptor", "the copy does not verify the caller's stream against the caller's descriptor"))
 	// returned path = name of the file written
 	okPath := true
 	var files []ssa.Value
@@ -995,7 +1147,7 @@ func c05IngestRole(c *Ctx, R string, g *ssa.Function, desc, rd *ssa.Parameter, p
 		}
 	}
 	c.Check(R, gn+"|returned-path-is-the-verified-file", g.Pos(), okPath,
-		ifelse(okPath, "the returned path is Name() of the file CopyBuffer wrote", "ingest returns a path other than the file whose content was verified"))
+		ifelse(okPath, "the returned path is Name() of the file the verified copy wrote", "ingest returns a path other than the file whose content was verified"))
 	// temp file lives in ingestRoot, which is not under blobs/
 	okTmp, why := false, "the verified file does not come from os.CreateTemp(<Storage field>, …)"
 	for _, f := range files {
@@ -1022,7 +1174,7 @@ func c05R2File(c *Ctx) {
 	// saveFile-role: writes digestToPath and copies through CopyBuffer
 	n := 0
 	for _, f := range fns {
-		cbs := CallsTo(f, c05CopyBuf)
+		cbs := c05CopyCalls(f)
 		if len(cbs) == 0 {
 			continue
 		}
@@ -1035,7 +1187,7 @@ func c05R2File(c *Ctx) {
 			fname := FnName(f)
 			var nilE []Edge
 			for _, cb := range cbs {
-				nilE = append(nilE, c05NilEdgesOf(cb)...)
+				nilE = append(nilE, c05NilEdgesOf(cb.Call)...)
 			}
 			ok1 := MustPass(call.(ssa.Instruction), newCut().Edges(nilE...))
 			c.Check(R, fname+"|digest-recorded-only-after-verified-copy", call.Pos(), ok1,
@@ -1043,13 +1195,12 @@ func c05R2File(c *Ctx) {
 			args := call.Common().Args
 			okKey, okVal := false, false
 			for _, cb := range cbs {
-				a := cb.Common().Args
-				if dp := c05ParamOf(a[3]); dp != nil && c05FieldOfParam(args[1], "Digest") == dp {
+				if dp := c05ParamOf(cb.Desc); dp != nil && c05FieldOfParam(args[1], "Digest") == dp {
 					okKey = true
 				}
 				if nc, isCall := strip(args[2]).(*ssa.Call); isCall && CalleeName(nc) == "(*os.File).Name" {
 					for _, r1 := range Roots(nc.Call.Args[0]) {
-						for _, r2 := range Roots(strip(a[0])) {
+						for _, r2 := range Roots(strip(cb.Dst)) {
 							if r1 == r2 {
 								okVal = true
 							}
@@ -1063,7 +1214,7 @@ func c05R2File(c *Ctx) {
 				ifelse(okVal, "the recorded path is Name() of the file CopyBuffer wrote", "the path recorded for the digest is not the file that was written and verified"))
 			okFresh, whyFresh := true, "the verified bytes are written into a file that is created empty (os.Create / os.CreateTemp / O_TRUNC without O_APPEND) on every call chain"
 			for _, cb := range cbs {
-				if ok, why := c05FreshFile(c, strip(cb.Common().Args[0]), 0); !ok {
+				if ok, why := c05FreshFile(c, strip(cb.Dst), 0); !ok {
 					okFresh, whyFresh = false, "the file the verified bytes are copied into may already hold data ("+why+"): the recorded file is then not the bytes the descriptor names"
 				}
 			}
@@ -1079,7 +1230,8 @@ func c05R2File(c *Ctx) {
 		c.LostAnchor(R, "function of ~/content/file that copies with CopyBuffer and records digestToPath (saveFile role)")
 	}
 	// push-role: marks the name as existing
-	c05ExistsAfterSuccess(c, R, "(*~/content/file.Store).push")
+	// push-role: the function(s) below Store.Push that mark a name as existing
+	c05ExistsAfterSuccess(c, R, c05ExistsWriters(c, true))
 }
 
 // c05FreshFile: every value v may denote is a file that was just created
@@ -1169,17 +1321,45 @@ func constantInt64(k *types.Const) (int64, bool) {
 // c05ExistsAfterSuccess: in function `which` of content/file every store of
 // true to nameStatus.exists is preceded by a content-producing call, and
 // between any such call and the store the call's error is nil.
-func c05ExistsAfterSuccess(c *Ctx, R, which string) {
-	var f *ssa.Function
-	for _, g := range c.P.FuncsOfPkg("content/file") {
-		if FnName(g) == which {
-			f = g
+// c05ExistsWriters: the functions of content/file that store a non-false value
+// into nameStatus.exists.  pushSide selects those in the call tree of
+// Store.Push; otherwise all of them (Push side and Add).
+func c05ExistsWriters(c *Ctx, pushSide bool) []*ssa.Function {
+	inPush := map[*ssa.Function]bool{}
+	if p := c.P.Fn("content/file", "Store.Push"); p != nil && len(p.Blocks) > 0 {
+		for _, e := range c05TreeEnvs(c05Root(p), 4) {
+			inPush[e.Fn] = true
 		}
 	}
-	if f == nil {
-		c.LostAnchor(R, which)
+	var out []*ssa.Function
+	for _, f := range c.P.FuncsOfPkg("content/file") {
+		writes := false
+		for _, u := range c05FieldUses([]*ssa.Function{f}, "~/content/file.nameStatus", "exists") {
+			if st, isStore := u.Use.(*ssa.Store); isStore {
+				if k, ok := st.Val.(*ssa.Const); !ok || k.Value == nil || k.Value.String() != "false" {
+					writes = true
+				}
+			}
+		}
+		if writes && (!pushSide || inPush[f]) {
+			out = append(out, f)
+		}
+	}
+	return out
+}
+
+func c05ExistsAfterSuccess(c *Ctx, R string, fs []*ssa.Function) {
+	if len(fs) == 0 {
+		c.LostAnchor(R, "function of ~/content/file that marks a name as existing (store to nameStatus.exists)")
 		return
 	}
+	for _, f := range fs {
+		c05ExistsAfterSuccess1(c, R, f)
+	}
+}
+
+func c05ExistsAfterSuccess1(c *Ctx, R string, f *ssa.Function) {
+	which := FnName(f)
 	writesDigest := func(n string, call ssa.CallInstruction) bool {
 		if !c05SyncMapWriters[n] || len(call.Common().Args) == 0 {
 			return false
@@ -1257,7 +1437,7 @@ var c05PostPushEffects = map[string]bool{
 
 func c05R2Wrappers(c *Ctx) {
 	const R = "C05.R2.wrapper-forwards-descriptor"
-	c.Expect(R, 9)
+	c.Expect(R, 8)
 	c05Wrappers(c, R, false)
 }
 
@@ -1269,84 +1449,179 @@ func c05Wrappers(c *Ctx, R string, refusalOnly bool) {
 		pkg, name string
 		effects   bool
 	}
+	effectNames := map[string]bool{
+		"(*~/internal/graph.Memory).Index": true, "(*~/internal/graph.Memory).IndexAll": true,
+		"(~/content.Tagger).Tag": true, "(*~/internal/resolver.Memory).Tag": true, "(~/content.TagResolver).Tag": true,
+	}
 	for _, x := range []w{{"content", "LimitedStorage.Push", false}, {"content/memory", "Store.Push", true}, {"content/oci", "Store.Push", true},
-		{"content/file", "Store.Push", true}, {"content/file", "Store.push", false}, {"internal/cas", "Proxy.Fetch", false}} {
+		{"content/file", "Store.Push", true}, {"internal/cas", "Proxy.Fetch", false}} {
 		fn := c.P.Fn(x.pkg, x.name)
 		if fn == nil || len(fn.Blocks) == 0 {
 			c.LostAnchor(R, x.pkg+"."+x.name)
 			continue
 		}
-		var descParam *ssa.Parameter
+		var descParam, rdParam *ssa.Parameter
 		for _, p := range fn.Params {
 			if c05IsOCIDescriptor(p.Type()) {
 				descParam = p
+			}
+			if nt, isN := p.Type().(*types.Named); isN && nt.Obj().Pkg() != nil && nt.Obj().Pkg().Path() == "io" && nt.Obj().Name() == "Reader" {
+				rdParam = p
 			}
 		}
 		if descParam == nil {
 			c.LostAnchor(R, FnName(fn)+": descriptor parameter")
 			continue
 		}
-		n := 0
+		root := c05Root(fn)
+		envs := c05TreeEnvs(root, 3)
+		// inner pushes of the caller's stream, anywhere in the call tree
+		type hit struct {
+			call ssa.CallInstruction
+			env  *c05Env
+		}
+		isInner := func(call ssa.CallInstruction, e *c05Env) (ssa.Value, bool) {
+			d, is := c05IsInnerPush(call)
+			if !is {
+				return nil, false
+			}
+			if rdParam != nil {
+				fromCaller := false
+				for _, a := range call.Common().Args {
+					if nt, isN := a.Type().(*types.Named); isN && nt.Obj().Name() == "Reader" {
+						for _, r := range c05ReaderSources(a, 0) {
+							if w, at := e.up(r); at.isRoot() && w == ssa.Value(rdParam) {
+								fromCaller = true
+							}
+						}
+					}
+				}
+				if !fromCaller {
+					return nil, false // e.g. restoring duplicates re-pushes other content read from the store itself
+				}
+			}
+			return d, true
+		}
+		var hits []hit
 		ok := true
 		pos := fn.Pos()
-		var inner []ssa.CallInstruction
-		for _, f := range append([]*ssa.Function{fn}, Anons(fn)...) {
-			for _, call := range Calls(f, func(string) bool { return true }) {
-				d, is := c05IsInnerPush(call)
+		for _, e := range envs {
+			for _, call := range Calls(e.Fn, func(string) bool { return true }) {
+				d, is := isInner(call, e)
 				if !is {
 					continue
 				}
-				n++
-				pos = call.Pos()
-				if f == fn {
-					inner = append(inner, call)
+				hits = append(hits, hit{call, e})
+				if e.isRoot() || pos == fn.Pos() {
+					pos = call.Pos()
 				}
-				if c05DescSource(d) != descParam {
+				p := c05DescSource(d)
+				if p == nil {
+					ok = false
+					continue
+				}
+				if w, at := e.up(p); !at.isRoot() || w != ssa.Value(descParam) {
 					ok = false
 				}
 			}
 		}
-		if n == 0 {
+		if len(hits) == 0 {
 			c.LostAnchor(R, FnName(fn)+": inner Push")
 			continue
 		}
 		if !refusalOnly {
 			c.Check(R, FnName(fn)+"|inner-push-gets-callers-descriptor", pos, ok,
 				ifelse(ok, "the inner Push verifies against the caller's descriptor (same Digest and Size)", "the wrapper hands a different descriptor to the inner Push than the one its caller named"))
-		} else {
-			for _, ip := range inner {
-				var tol []string
-				if x.pkg == "content/file" {
-					tol = []string{"~/content/file.errSkipUnnamed"}
-				}
-				r := ErrFlow(ip, ErrFlowOpts{Tolerated: tol})
-				c.Check(R, FnName(fn)+"|inner-push-refusal-returned", ip.Pos(), r.OK,
-					ifelse(r.OK, "a refusal of the inner Push (already exists / duplicate name / mismatch) is returned: "+r.How, "a refusal of the inner Push can be reported as success: "+r.Detail))
+		} else if ErrResultIndex(fn.Signature) >= 0 && rdParam != nil {
+			okR, detail := true, ""
+			var tol []string
+			if x.pkg == "content/file" {
+				tol = []string{"~/content/file.errSkipUnnamed"}
 			}
+			seen := map[ssa.Instruction]bool{}
+			for _, h := range hits {
+				chain := []ssa.CallInstruction{h.call}
+				for e := h.env; e.Parent != nil && e.Call != nil; e = e.Parent {
+					chain = append(chain, e.Call)
+				}
+				for _, call := range chain {
+					if seen[call.(ssa.Instruction)] {
+						continue
+					}
+					seen[call.(ssa.Instruction)] = true
+					r := ErrFlow(call, ErrFlowOpts{Tolerated: tol})
+					if !r.OK {
+						okR, detail = false, r.Detail
+					} else if detail == "" {
+						detail = r.How
+					}
+				}
+			}
+			c.Check(R, FnName(fn)+"|inner-push-refusal-returned", pos, okR,
+				ifelse(okR, "a refusal of the inner Push (already exists / duplicate name / mismatch) is returned: "+detail, "a refusal of the inner Push can be reported as success: "+detail))
 		}
 		if !x.effects {
 			continue
 		}
-		var nilE []Edge
-		for _, ip := range inner {
-			nilE = append(nilE, c05NilEdgesOf(ip)...)
-		}
+		// success of the inner push, seen from each level of the call tree
+		spec := c05PassSpec{Success: true, Edges: func(e *c05Env) []Edge {
+			var out []Edge
+			for _, call := range Calls(e.Fn, func(string) bool { return true }) {
+				if _, is := isInner(call, e); is {
+					out = append(out, c05NilEdgesOf(call)...)
+				}
+			}
+			return out
+		}}
 		okE, bad := true, ""
 		ne := 0
-		for _, call := range Calls(fn, func(nm string) bool { return c05PostPushEffects[nm] }) {
-			if _, isDefer := call.(*ssa.Defer); isDefer {
-				okE, bad = false, CalleeName(call)+" (deferred)"
-				continue
-			}
-			ne++
-			if !MustPass(call.(ssa.Instruction), newCut().Edges(nilE...)) {
-				okE, bad = false, CalleeName(call)
+		for _, e := range envs {
+			for _, call := range Calls(e.Fn, func(nm string) bool { return effectNames[nm] }) {
+				if _, isDefer := call.(*ssa.Defer); isDefer {
+					okE, bad = false, CalleeName(call)+" (deferred)"
+					continue
+				}
+				ne++
+				dominated := false
+				var tgt ssa.Instruction = call.(ssa.Instruction)
+				for lv := e; lv != nil && tgt != nil; lv = lv.Parent {
+					ct := c05PassCut(lv, spec)
+					if (len(ct.edges) > 0 || len(ct.instrs) > 0) && MustPass(tgt, ct) {
+						dominated = true
+						break
+					}
+					if lv.Call == nil {
+						break
+					}
+					tgt = lv.Call.(ssa.Instruction)
+				}
+				if !dominated {
+					okE, bad = false, CalleeName(call)+" in "+FnName(e.Fn)
+				}
 			}
 		}
 		c.Check(R, FnName(fn)+"|bookkeeping-only-after-successful-inner-push", pos, okE,
-			ifelse(okE, fmt.Sprintf("%d bookkeeping effect(s) (index/tag/restore) all lie behind the err==nil edge of the inner Push", ne),
+			ifelse(okE, fmt.Sprintf("%d bookkeeping effect(s) (index/tag) all lie behind the err==nil edge of the inner Push", ne),
 				bad+" is reachable although the inner Push did not succeed: tags / graph entries would name content that was refused"))
 	}
+}
+
+// c05ReaderSources: the reader values a reader expression is built from
+// (through io.LimitReader / TeeReader / NopCloser style wrappers).
+func c05ReaderSources(v ssa.Value, depth int) []ssa.Value {
+	var out []ssa.Value
+	for _, r := range Roots(v) {
+		r = strip(r)
+		out = append(out, r)
+		if call, ok := r.(*ssa.Call); ok && depth < 3 {
+			for _, a := range call.Call.Args {
+				if _, isIface := a.Type().Underlying().(*types.Interface); isIface {
+					out = append(out, c05ReaderSources(a, depth+1)...)
+				}
+			}
+		}
+	}
+	return out
 }
 
 // c05DescSource resolves a descriptor value to the parameter whose Digest and
@@ -1395,53 +1670,79 @@ func c05R3(c *Ctx) {
 	const R = "C05.R3.who-may-publish"
 	c.Expect(R, 12) // 19 on the pinned tree; the 6 reader lines are optional
 	all := c05ModuleFuncs(c.P)
-	// (a) cas.Memory.content
-	c05MapInventory(c, R, all, "~/internal/cas.Memory", "content", map[string]string{
-		"(*~/internal/cas.Memory).Push|(*sync.Map).LoadOrStore": "publication, verified by R2",
-		"(*~/internal/cas.Memory).Push|(*sync.Map).Load":        "reader",
-		"(*~/internal/cas.Memory).Fetch|(*sync.Map).Load":       "reader",
-		"(*~/internal/cas.Memory).Exists|(*sync.Map).Load":      "reader",
-		"(*~/internal/cas.Memory).Map|(*sync.Map).Range":        "reader",
-	}, []string{"(*~/internal/cas.Memory).Push|(*sync.Map).LoadOrStore"})
-	// (b) file.Store.digestToPath
-	c05MapInventory(c, R, all, "~/content/file.Store", "digestToPath", map[string]string{
-		"(*~/content/file.Store).saveFile|(*sync.Map).Store":           "publication of a pushed digest, verified by R2",
-		"(*~/content/file.Store).descriptorFromDir|(*sync.Map).Store":  "Add: digest computed by the store over the bytes it wrote",
-		"(*~/content/file.Store).descriptorFromFile|(*sync.Map).Store": "Add: digest computed by the store over the file it read",
-		"(*~/content/file.Store).Fetch|(*sync.Map).Load":               "reader",
-		"(*~/content/file.Store).Exists|(*sync.Map).Load":              "reader",
-	}, []string{"(*~/content/file.Store).saveFile|(*sync.Map).Store"})
+	tree := func(pkg, name string) map[*ssa.Function]bool {
+		out := map[*ssa.Function]bool{}
+		if f := c.P.Fn(pkg, name); f != nil && len(f.Blocks) > 0 {
+			for _, e := range c05TreeEnvs(c05Root(f), 4) {
+				out[e.Fn] = true
+			}
+		}
+		return out
+	}
+	// (a) cas.Memory.content: written only by the atomic LoadOrStore below Push
+	c05MapInventory(c, R, all, "~/internal/cas.Memory", "content", map[string]bool{"(*sync.Map).LoadOrStore": true},
+		tree("internal/cas", "Memory.Push"), nil, "(*~/internal/cas.Memory).Push")
+	// (b) file.Store.digestToPath: written below Push (with a verified copy in the same function, R2) and below Add (provenance check)
+	c05MapInventory(c, R, all, "~/content/file.Store", "digestToPath", map[string]bool{"(*sync.Map).Store": true, "(*sync.Map).LoadOrStore": true},
+		tree("content/file", "Store.Push"), tree("content/file", "Store.Add"), "(*~/content/file.Store).Push")
 	c05AddProvenance(c, R)
 	// (c) names under blobs/
 	c05BlobsInventory(c, R)
 }
 
-// c05MapInventory classifies every use of the sync.Map field T.field.
-func c05MapInventory(c *Ctx, R string, fns []*ssa.Function, typ, field string, table map[string]string, required []string) {
-	seen := map[string]token.Pos{}
+// c05MapInventory classifies every use of the sync.Map field T.field: reads
+// are free; writes (only with the allowed methods) must sit in the call tree
+// of the exported Push — where a verified copy in the same function backs them
+// (checked by R2) — or of the second allowed entry point; nothing may delete
+// or leak the map.
+func c05MapInventory(c *Ctx, R string, fns []*ssa.Function, typ, field string, writers map[string]bool, pushTree, otherTree map[*ssa.Function]bool, pushName string) {
+	type rec struct {
+		pos  token.Pos
+		ok   bool
+		role string
+	}
+	seen := map[string]rec{}
 	var order []string
+	pushWriters := 0
 	for _, u := range c05FieldUses(fns, typ, field) {
 		k := FnName(u.Fn) + "|"
-		if call, ok := u.Use.(ssa.CallInstruction); ok && len(call.Common().Args) > 0 && call.Common().Args[0] == ssa.Value(u.Addr) &&
-			(c05SyncMapWriters[CalleeName(call)] || c05SyncMapRemovers[CalleeName(call)] || c05SyncMapReaders[CalleeName(call)]) {
-			k += CalleeName(call)
-		} else {
+		r := rec{pos: u.Use.Pos()}
+		call, isCall := u.Use.(ssa.CallInstruction)
+		name := ""
+		if isCall && len(call.Common().Args) > 0 && call.Common().Args[0] == ssa.Value(u.Addr) {
+			name = CalleeName(call)
+		}
+		switch {
+		case c05SyncMapReaders[name]:
+			k += name
+			r.ok, r.role = true, "reader"
+		case c05SyncMapWriters[name] && writers[name] && pushTree[u.Fn]:
+			k += name
+			pushWriters++
+			r.ok, r.role = true, "publication below "+pushName+", verified by R2"
+			if typ == "~/content/file.Store" && len(c05CopyCalls(u.Fn)) == 0 {
+				r.ok, r.role = false, "a digest is recorded on the Push side in a function that performs no verified copy: R2 cannot tie the record to a verification"
+			}
+		case c05SyncMapWriters[name] && writers[name] && otherTree[u.Fn]:
+			k += name
+			r.ok, r.role = true, "Add: digest computed by the store itself (provenance checked)"
+		case name != "":
+			k += name
+			r.role = "unclassified access to " + typ + "." + field + ": only the confirmed writers may make content visible (" + name + " in " + FnName(u.Fn) + "); review against C05"
+		default:
 			k += fmt.Sprintf("address-escapes(%T)", u.Use)
+			r.role = "the address of " + typ + "." + field + " escapes: writers can no longer be enumerated"
 		}
 		if _, dup := seen[k]; !dup {
 			order = append(order, k)
 		}
-		seen[k] = u.Use.Pos()
+		seen[k] = r
 	}
 	for _, k := range order {
-		role, ok := table[k]
-		c.Exists(R, typ+"."+field+"|"+k, seen[k], ok,
-			ifelse(ok, role, "unclassified access to "+typ+"."+field+": only the confirmed writers may make content visible; review against C05 and extend the table"))
+		c.Exists(R, typ+"."+field+"|"+k, seen[k].pos, seen[k].ok, seen[k].role)
 	}
-	for _, rq := range required {
-		if _, ok := seen[rq]; !ok {
-			c.ob(R, typ+"."+field+"|"+rq, token.NoPos, Lost, true, "required publication site no longer present")
-		}
+	if pushWriters == 0 {
+		c.ob(R, typ+"."+field+"|publication-below-"+pushName, token.NoPos, Lost, true, "required publication site no longer present")
 	}
 	if len(order) == 0 {
 		c.LostAnchor(R, typ+"."+field)
@@ -1452,7 +1753,7 @@ func c05MapInventory(c *Ctx, R string, fns []*ssa.Function, typ, field string, t
 // itself over the very file it records.
 func c05AddProvenance(c *Ctx, R string) {
 	for _, f := range c.P.FuncsOfPkg("content/file") {
-		if len(CallsTo(f, c05CopyBuf)) > 0 {
+		if len(c05CopyCalls(f)) > 0 {
 			continue // saveFile role, handled by R2
 		}
 		for _, u := range c05FieldUses([]*ssa.Function{f}, "~/content/file.Store", "digestToPath") {
@@ -1549,14 +1850,48 @@ var c05Creators = map[string]bool{
 	"(*os.Root).Create": true, "(*os.Root).OpenFile": true, "(*os.Root).Mkdir": true, "os.CopyFS": true,
 }
 
+type c05Src struct {
+	V  ssa.Value
+	Fn *ssa.Function
+}
+
+// c05ArgSources: where a path value comes from — when it is a parameter of an
+// unexported helper, the arguments at every static call site in the package
+// (transitively, depth <= 3).
+func c05ArgSources(pkgFns []*ssa.Function, f *ssa.Function, v ssa.Value, depth int) []c05Src {
+	p, isParam := strip(v).(*ssa.Parameter)
+	if !isParam || depth >= 3 || p.Parent() != f {
+		return []c05Src{{v, f}}
+	}
+	idx := -1
+	for i, q := range f.Params {
+		if q == p {
+			idx = i
+		}
+	}
+	var out []c05Src
+	for _, g := range pkgFns {
+		for _, call := range Calls(g, func(string) bool { return true }) {
+			if StaticCallee(call) == f && idx >= 0 && idx < len(call.Common().Args) {
+				out = append(out, c05ArgSources(pkgFns, g, call.Common().Args[idx], depth+1)...)
+			}
+		}
+	}
+	if len(out) == 0 {
+		return []c05Src{{v, f}}
+	}
+	return out
+}
+
 func c05BlobsInventory(c *Ctx, R string) {
 	fns := c.P.FuncsOfPkg("content/oci")
 	bp := c05BlobPathFns(c.P)
 	all := c05ModuleFuncs(c.P)
 	publications := 0
+	// values that denote a path under blobs/, per function
+	blobVals := map[*ssa.Function]map[ssa.Value]bool{}
 	for _, f := range fns {
-		// values of f that denote a path under blobs/
-		blobVals := map[ssa.Value]bool{}
+		bv := map[ssa.Value]bool{}
 		AllInstrs(f, func(in ssa.Instruction) {
 			call, ok := in.(*ssa.Call)
 			if !ok {
@@ -1564,25 +1899,42 @@ func c05BlobsInventory(c *Ctx, R string) {
 			}
 			if g := StaticCallee(call); g != nil && bp[g] {
 				if r0 := ResultOf(call, 0); r0 != nil {
-					blobVals[r0] = true
+					bv[r0] = true
 				}
-				blobVals[call] = true
+				bv[call] = true
 			}
 			for _, a := range call.Call.Args {
 				if s, ok := constString(a); ok && (s == "blobs" || strings.HasPrefix(s, "blobs/")) {
-					blobVals[a] = true
+					bv[a] = true
 				}
 			}
 			if nm := CalleeName(call); nm == "path.Join" || nm == "path/filepath.Join" {
 				for _, e := range c05VariadicElems(variadicArg(call)) {
 					if s, ok := constString(e); ok && (s == "blobs" || strings.HasPrefix(s, "blobs/")) {
-						blobVals[e] = true
-						blobVals[call] = true
+						bv[e] = true
+						bv[call] = true
 					}
 				}
 			}
 		})
-		underBlobs := func(v ssa.Value) bool { return len(blobVals) > 0 && derivesFromAny(v, blobVals, 0) }
+		blobVals[f] = bv
+	}
+	pushTree := map[*ssa.Function]bool{}
+	if p := c.P.Fn("content/oci", "Storage.Push"); p != nil && len(p.Blocks) > 0 {
+		for _, e := range c05TreeEnvs(c05Root(p), 3) {
+			pushTree[e.Fn] = true
+		}
+	}
+	for _, f := range fns {
+		f := f
+		underBlobs := func(v ssa.Value) bool {
+			for _, s := range c05ArgSources(fns, f, v, 0) {
+				if len(blobVals[s.Fn]) > 0 && derivesFromAny(s.V, blobVals[s.Fn], 0) {
+					return true
+				}
+			}
+			return false
+		}
 		seen := map[string]int{}
 		for _, call := range Calls(f, func(n string) bool { return c05Creators[n] }) {
 			n := CalleeName(call)
@@ -1595,28 +1947,47 @@ func c05BlobsInventory(c *Ctx, R string) {
 			case "os.Rename":
 				if underBlobs(args[1]) {
 					publications++
-					ok := FnName(f) == "(*~/content/oci.Storage).Push" && !underBlobs(args[0])
+					ok := pushTree[f] && !underBlobs(args[0])
 					c.Check(R, key+"|publication", call.Pos(), ok,
-						ifelse(ok, "the only creator of names under blobs/: Storage.Push moves the verified ingest file to its blob path (R2 checks dominance)", "a rename into blobs/ outside Storage.Push (or from within blobs/): content becomes visible without passing ingest+verify"))
+						ifelse(ok, "the only creator of names under blobs/: Storage.Push (or a helper it calls) moves the verified ingest file to its blob path (R2 checks dominance)", "a rename into blobs/ outside Storage.Push (or from within blobs/): content becomes visible without passing ingest+verify"))
 				} else {
 					c.Violation(R, key, call.Pos(), "unclassified rename in the OCI layout package: review against C05 (is the target visible as content?) and extend the classification")
 				}
 			case "os.CreateTemp":
-				why := c05IngestDirOK(all, args[0])
+				why := ""
+				for _, s := range c05ArgSources(fns, f, args[0], 0) {
+					if w := c05IngestDirOK(all, s.V); w != "" {
+						why = w
+					}
+				}
 				c.Check(R, key+"|ingest-file", call.Pos(), why == "" && !underBlobs(args[0]),
 					ifelse(why == "", "temporary file in the storage's ingest directory, a constant sibling of blobs/", why))
 			case "os.WriteFile":
-				ok, role := false, "file written in place by the OCI layout package at an unreviewed path"
+				ok, role := true, ""
 				if underBlobs(args[0]) {
-					role = "a file is written directly under blobs/: content becomes visible without passing ingest+verify"
-				} else if fld := fieldOfFuncValue(args[0]); strings.HasSuffix(fld, ".indexPath") {
-					ok, role = true, "index.json (path held in Store.indexPath)"
-				} else if jc, isJoin := strip(args[0]).(*ssa.Call); isJoin && (CalleeName(jc) == "path/filepath.Join" || CalleeName(jc) == "path.Join") {
-					el := c05VariadicElems(variadicArg(jc))
-					if len(el) == 2 {
-						if seg, isK := constString(el[1]); isK && (seg == "oci-layout" || seg == "index.json") {
-							ok, role = true, "metadata file "+seg+" at the layout root"
+					ok, role = false, "a file is written directly under blobs/: content becomes visible without passing ingest+verify"
+				}
+				for _, s := range c05ArgSources(fns, f, args[0], 0) {
+					if !ok {
+						break
+					}
+					if fld := fieldOfFuncValue(s.V); strings.HasSuffix(fld, ".indexPath") {
+						role = "index.json (path held in Store.indexPath)"
+						continue
+					}
+					good := false
+					for _, r := range Roots(s.V) {
+						if jc, isJoin := strip(r).(*ssa.Call); isJoin && (CalleeName(jc) == "path/filepath.Join" || CalleeName(jc) == "path.Join") {
+							el := c05VariadicElems(variadicArg(jc))
+							if len(el) == 2 {
+								if seg, isK := constString(el[1]); isK && (seg == "oci-layout" || seg == "index.json") {
+									good, role = true, "metadata file "+seg+" at the layout root"
+								}
+							}
 						}
+					}
+					if !good {
+						ok, role = false, "file written in place by the OCI layout package at an unreviewed path ("+describe(s.V)+" in "+FnName(s.Fn)+")"
 					}
 				}
 				c.Check(R, key+"|metadata-file", call.Pos(), ok, role)
@@ -1727,8 +2098,8 @@ func c05R4(c *Ctx) {
 			continue // closures without an error result are handled below
 		}
 		var cbNil []Edge
-		for _, cb := range CallsTo(f, c05CopyBuf) {
-			cbNil = append(cbNil, c05NilEdgesOf(cb)...)
+		for _, cb := range c05CopyCalls(f) {
+			cbNil = append(cbNil, c05NilEdgesOf(cb.Call)...)
 		}
 		seen := map[string]int{}
 		for _, call := range Calls(f, func(string) bool { return true }) {
@@ -1875,6 +2246,8 @@ func c05ClosureErrRecorded(cl *ssa.Function, call ssa.CallInstruction, handle ss
 
 var c05Mutants = []Mutant{
 	// R5
+	{Name: "oci-fetch-any-open-error-is-not-found", File: "content/oci/readonlystorage.go", Old: "\t\tif errors.Is(err, fs.ErrNotExist) {\n\t\t\treturn nil, fmt.Errorf(\"%s: %s: %w\", target.Digest, target.MediaType, errdef.ErrNotFound)\n\t\t}\n\t\treturn nil, err\n\t}\n\n\treturn fp, nil", New: "\t\tif errors.Is(err, fs.ErrNotExist) || errors.Is(err, fs.ErrPermission) {\n\t\t\treturn nil, fmt.Errorf(\"%s: %s: %w\", target.Digest, target.MediaType, errdef.ErrNotFound)\n\t\t}\n\t\treturn nil, err\n\t}\n\n\treturn fp, nil", Expect: "C05.R5.not-found-only-when-absent|(*~/content/oci.ReadOnlyStorage).Fetch|"},
+	{Name: "oci-exists-false-for-any-stat-error", File: "content/oci/readonlystorage.go", Old: "\t\tif errors.Is(err, fs.ErrNotExist) {\n\t\t\treturn false, nil\n\t\t}\n\t\treturn false, err", New: "\t\treturn false, nil", Expect: "C05.R5.not-found-only-when-absent|(*~/content/oci.ReadOnlyStorage).Exists|"},
 	{Name: "proxy-exists-or-instead-of-and", File: "internal/cas/proxy.go", Old: "\tif err == nil && exists {\n\t\treturn true, nil\n\t}", New: "\tif err == nil || exists {\n\t\treturn true, nil\n\t}", Expect: "C05.R5.visibility-readers|(*~/internal/cas.Proxy).Exists|"},
 	{Name: "oci-exists-true-for-missing-blob", File: "content/oci/readonlystorage.go", Old: "\t_, err = fs.Stat(s.fsys, path)\n\tif err != nil {\n\t\tif errors.Is(err, fs.ErrNotExist) {\n\t\t\treturn false, nil\n\t\t}\n\t\treturn false, err\n\t}", New: "\t_, err = fs.Stat(s.fsys, path)\n\tif err != nil && !errors.Is(err, fs.ErrNotExist) {\n\t\treturn false, err\n\t}", Expect: "C05.R5.visibility-readers|(*~/content/oci.ReadOnlyStorage).Exists|"},
 	{Name: "memory-exists-true-for-empty-content", File: "internal/cas/memory.go", Old: "\t_, exists := m.content.Load(key)\n\treturn exists, nil", New: "\t_, exists := m.content.Load(key)\n\tif !exists && key.Size == 0 {\n\t\texists = true\n\t}\n\treturn exists, nil", Expect: "C05.R5.visibility-readers|(*~/internal/cas.Memory).Exists|"},
@@ -1946,165 +2319,403 @@ func c05R5(c *Ctx) {
 		{"content/memory", "Store.Exists"}, {"content/memory", "Store.Fetch"},
 		{"content/file", "Store.Exists"}, {"content/file", "Store.Fetch"},
 	} {
-		fn := c.P.Fn(x.pkg, x.name)
-		if fn == nil || len(fn.Blocks) == 0 {
+		fn0 := c.P.Fn(x.pkg, x.name)
+		if fn0 == nil || len(fn0.Blocks) == 0 {
 			c.LostAnchor(R, x.pkg+"."+x.name)
 			continue
 		}
-		tn := FnName(fn)
-		target := c07DescParam(fn)
-		if target == nil {
-			c.LostAnchor(R, tn+": descriptor parameter")
+		if c07DescParam(fn0) == nil {
+			c.LostAnchor(R, FnName(fn0)+": descriptor parameter")
 			continue
 		}
-		isExists := fn.Signature.Results().Len() == 2 && types.Identical(fn.Signature.Results().At(0).Type(), types.Typ[types.Bool])
-		isTarget := func(v ssa.Value) bool { return c05DescSource(v) == target }
-		digestOfTarget := func(v ssa.Value) bool { return c05FieldOfParam(v, "Digest") == target }
-		// answers forwarded from an inner store / published map for the same descriptor
-		forward := map[ssa.Value]bool{}
-		var evidence [][][]Edge // alternatives; within one alternative every group must be passed by a self-made positive answer
-		for _, call := range Calls(fn, func(string) bool { return true }) {
-			if _, isDefer := call.(*ssa.Defer); isDefer {
+		// the entry point and the same-package helpers it hands the descriptor to (depth <= 3)
+		// kind: what the designated parameter is — the descriptor ("desc"), its graph/CAS key
+		// descriptor.FromOCI(desc) ("key"), or its digest ("digest")
+		type job struct {
+			fn    *ssa.Function
+			depth int
+			kind  string
+			param *ssa.Parameter
+		}
+		work := []job{{fn0, 0, "desc", c07DescParam(fn0)}}
+		done := map[*ssa.Function]bool{}
+		for len(work) > 0 {
+			j := work[0]
+			work = work[1:]
+			if done[j.fn] {
 				continue
 			}
-			n := CalleeName(call)
-			args := call.Common().Args
-			switch {
-			case strings.HasSuffix(n, ").Exists") || strings.HasSuffix(n, ").Fetch") || strings.HasSuffix(n, ").FetchCached"):
-				same := false
-				for _, a := range args {
-					if c05IsOCIDescriptor(a.Type()) && isTarget(a) {
-						same = true
-					}
+			done[j.fn] = true
+			fn := j.fn
+			tn := FnName(fn)
+			target := j.param
+			isExists := fn.Signature.Results().Len() >= 1 && types.Identical(fn.Signature.Results().At(0).Type(), types.Typ[types.Bool])
+			isTarget := func(v ssa.Value) bool { return j.kind == "desc" && c05DescSource(v) == target }
+			keyOfTarget := func(v ssa.Value) bool {
+				if j.kind == "key" {
+					return c05Unspill(v) == ssa.Value(target) || c05ParamOf(v) == target
 				}
-				if same {
-					if r0 := ResultOf(call, 0); r0 != nil {
-						forward[r0] = true
-						// `if ok, err := inner.Exists(...); err == nil && ok { return true, nil }`
-						if te, _ := BoolTests(fn, Aliases(r0)); len(te) > 0 {
-							evidence = append(evidence, [][]Edge{te, c05NilEdgesOf(call)})
+				return j.kind == "desc" && c07IsKeyOf(v, func(x ssa.Value) bool { return c05ParamOf(x) == target })
+			}
+			digestOfTarget := func(v ssa.Value) bool {
+				if j.kind == "digest" {
+					return strip(v) == ssa.Value(target)
+				}
+				return c05FieldOfParam(v, "Digest") == target
+			}
+			// which role an argument plays for the callee
+			roleOf := func(a ssa.Value) string {
+				switch {
+				case c05IsOCIDescriptor(a.Type()) && isTarget(a):
+					return "desc"
+				case keyOfTarget(a):
+					return "key"
+				case digestOfTarget(a):
+					return "digest"
+				}
+				return ""
+			}
+			// answers forwarded from an inner store / published map for the same descriptor
+			forward := map[ssa.Value]bool{}
+			var evidence [][][]Edge // alternatives; within one alternative every group must be passed by a self-made positive answer
+			for _, call := range Calls(fn, func(string) bool { return true }) {
+				if _, isDefer := call.(*ssa.Defer); isDefer {
+					continue
+				}
+				n := CalleeName(call)
+				args := call.Common().Args
+				helperFwd := false
+				if h := c05Helper(call, fn); h != nil && j.depth < 3 && ResultOf(call, 0) != nil && h.Signature.Results().Len() >= 1 &&
+					types.Identical(h.Signature.Results().At(0).Type(), fn.Signature.Results().At(0).Type()) {
+					for i, a := range args {
+						if k := roleOf(a); k != "" && i < len(h.Params) && !helperFwd {
+							helperFwd = true
+							work = append(work, job{h, j.depth + 1, k, h.Params[i]}) // the helper answers for the same content: it is held to the same rule
 						}
 					}
 				}
-			case n == "(*sync.Map).Load":
-				okKey := c07IsKeyOf(args[1], func(v ssa.Value) bool { return c05ParamOf(v) == target }) || digestOfTarget(args[1])
-				published := c05IsFieldAddrOf(args[0], "~/internal/cas.Memory", "content") || c05IsFieldAddrOf(args[0], "~/content/file.Store", "digestToPath")
-				if okKey && published {
-					if okv := ResultOf(call, 1); okv != nil {
-						forward[okv] = true
-						te, _ := BoolTests(fn, Aliases(okv))
-						evidence = append(evidence, [][]Edge{te})
-					}
-				}
-			case n == "io/fs.Stat" || n == "(io/fs.FS).Open":
-				// a file at the blob path of the target's digest
-				p := args[len(args)-1]
-				okPath := false
-				for _, bc := range Calls(fn, func(string) bool { return true }) {
-					if g := StaticCallee(bc); g != nil && bp[g] && digestOfTarget(bc.Common().Args[0]) {
-						if r0 := ResultOf(bc, 0); r0 != nil && SameValue(p, r0) {
-							okPath = true
+				switch {
+				case helperFwd || strings.HasSuffix(n, ").Exists") || strings.HasSuffix(n, ").Fetch") || strings.HasSuffix(n, ").FetchCached"):
+					same := helperFwd
+					for _, a := range args {
+						if c05IsOCIDescriptor(a.Type()) && isTarget(a) {
+							same = true
 						}
 					}
-				}
-				if okPath {
-					evidence = append(evidence, [][]Edge{c05NilEdgesOf(call)})
-					if r0 := ResultOf(call, 0); r0 != nil && n != "io/fs.Stat" {
-						forward[r0] = true
+					if same {
+						if r0 := ResultOf(call, 0); r0 != nil {
+							forward[r0] = true
+							// `if ok, err := inner.Exists(...); err == nil && ok { return true, nil }`
+							if te, _ := BoolTests(fn, Aliases(r0)); len(te) > 0 {
+								evidence = append(evidence, [][]Edge{te, c05NilEdgesOf(call)})
+							}
+						}
 					}
-				}
-			case n == "os.Open":
-				// the file recorded for the target's digest
-				for _, r := range Roots(args[0]) {
-					if ta, isTA := r.(*ssa.TypeAssert); isTA {
-						r = ta.X
+				case n == "(*sync.Map).Load":
+					okKey := keyOfTarget(args[1]) || digestOfTarget(args[1])
+					published := c05IsFieldAddrOf(args[0], "~/internal/cas.Memory", "content") || c05IsFieldAddrOf(args[0], "~/content/file.Store", "digestToPath")
+					if okKey && published {
+						if okv := ResultOf(call, 1); okv != nil {
+							forward[okv] = true
+							te, _ := BoolTests(fn, Aliases(okv))
+							evidence = append(evidence, [][]Edge{te})
+						}
 					}
-					if e, isE := r.(*ssa.Extract); isE && e.Index == 0 {
-						if lc, isC := e.Tuple.(*ssa.Call); isC && CalleeName(lc) == "(*sync.Map).Load" && c05IsFieldAddrOf(lc.Call.Args[0], "~/content/file.Store", "digestToPath") && digestOfTarget(lc.Call.Args[1]) {
-							if r0 := ResultOf(call, 0); r0 != nil {
-								forward[r0] = true
+				case n == "io/fs.Stat" || n == "(io/fs.FS).Open":
+					// a file at the blob path of the target's digest
+					p := args[len(args)-1]
+					okPath := false
+					for _, bc := range Calls(fn, func(string) bool { return true }) {
+						if g := StaticCallee(bc); g != nil && bp[g] && digestOfTarget(bc.Common().Args[0]) {
+							if r0 := ResultOf(bc, 0); r0 != nil && SameValue(p, r0) {
+								okPath = true
+							}
+						}
+					}
+					if okPath {
+						evidence = append(evidence, [][]Edge{c05NilEdgesOf(call)})
+						if r0 := ResultOf(call, 0); r0 != nil && n != "io/fs.Stat" {
+							forward[r0] = true
+						}
+					}
+				case n == "os.Open":
+					// the file recorded for the target's digest
+					for _, r := range Roots(args[0]) {
+						if ta, isTA := r.(*ssa.TypeAssert); isTA {
+							r = ta.X
+						}
+						if e, isE := r.(*ssa.Extract); isE && e.Index == 0 {
+							if lc, isC := e.Tuple.(*ssa.Call); isC && CalleeName(lc) == "(*sync.Map).Load" && c05IsFieldAddrOf(lc.Call.Args[0], "~/content/file.Store", "digestToPath") && digestOfTarget(lc.Call.Args[1]) {
+								if r0 := ResultOf(call, 0); r0 != nil {
+									forward[r0] = true
+								}
 							}
 						}
 					}
 				}
 			}
-		}
-		// cas.Memory.Fetch builds a reader over the loaded bytes: any value is fine behind the ok edge
-		// name gate of the file store
-		var gate []Edge
-		hasGate := false
-		for _, call := range Calls(fn, func(string) bool { return true }) {
-			if g := StaticCallee(call); g != nil && fnPkgPath(g) == pkgPath("content/file") && len(c05FieldUses([]*ssa.Function{g}, "~/content/file.nameStatus", "exists")) > 0 && call.Value() != nil {
-				hasGate = true
-				te, _ := BoolTests(fn, Aliases(call.Value()))
-				gate = append(gate, te...)
-				nameArg := call.Common().Args[len(call.Common().Args)-1]
-				eq, _ := c05EqEdges(fn, func(v ssa.Value) bool { return SameValue(v, nameArg) }, func(v ssa.Value) bool { s, ok := constString(v); return ok && s == "" })
-				gate = append(gate, eq...)
-			}
-		}
-		if x.pkg == "content/file" && !hasGate {
-			c.Violation(R, tn+"|positive-answer-has-evidence", fn.Pos(), "the file store no longer consults the name status: content of a name whose push failed or never happened is reported as present")
-			continue
-		}
-		ok, detail := true, "every positive answer is evidence from the published state for this descriptor or the forwarded answer of an inner store"
-		errIdx := ErrResultIndex(fn.Signature)
-		for _, r := range Returns(fn) {
-			if !ReachableFromEntry(r) {
+			// cas.Memory.Fetch builds a reader over the loaded bytes: any value is fine behind the ok edge
+			// name gate of the file store
+			gate := c05NameGateEdges(fn, 0)
+			hasGate := len(gate) > 0
+			if x.pkg == "content/file" && !hasGate {
+				c.Violation(R, tn+"|positive-answer-has-evidence", fn.Pos(), "the file store no longer consults the name status: content of a name whose push failed or never happened is reported as present")
 				continue
 			}
-			// refusals need no evidence
-			refusal := errIdx >= 0
-			if errIdx >= 0 {
-				for _, ev := range Roots(r.Results[errIdx]) {
-					if ErrNilStatus(ev, 0) != NonNil {
-						refusal = false
-					}
-				}
-			}
-			if refusal {
-				continue
-			}
-			positive := false
-			for _, v := range Roots(r.Results[0]) {
-				v = strip(v)
-				if k, isK := v.(*ssa.Const); isK {
-					if isExists && k.Value != nil && k.Value.String() == "false" {
-						continue
-					}
-					if !isExists && k.Value == nil {
-						continue
-					}
-				}
-				positive = true
-				if forward[v] {
+			ok, detail := true, "every positive answer is evidence from the published state for this descriptor or the forwarded answer of an inner store"
+			errIdx := ErrResultIndex(fn.Signature)
+			for _, r := range Returns(fn) {
+				if !ReachableFromEntry(r) {
 					continue
 				}
-				// self-made positive answer: needs every evidence group on the path
-				if len(evidence) == 0 {
-					ok, detail = false, "the return at "+c.P.Pos(r.Pos())+" answers positively ("+describe(v)+") without any evidence from the published state"
-					continue
-				}
-				justified := false
-				for _, alt := range evidence {
-					all := true
-					for _, grp := range alt {
-						if !MustPass(r, newCut().Edges(grp...)) {
-							all = false
+				// refusals need no evidence
+				refusal := errIdx >= 0
+				if errIdx >= 0 {
+					for _, ev := range Roots(r.Results[errIdx]) {
+						if ErrNilStatus(ev, 0) != NonNil {
+							refusal = false
 						}
 					}
-					if all {
-						justified = true
+				}
+				if refusal {
+					continue
+				}
+				positive := false
+				for _, v := range Roots(r.Results[0]) {
+					v = strip(v)
+					if k, isK := v.(*ssa.Const); isK {
+						if isExists && k.Value != nil && k.Value.String() == "false" {
+							continue
+						}
+						if !isExists && k.Value == nil {
+							continue
+						}
+					}
+					positive = true
+					if forward[v] {
+						continue
+					}
+					// self-made positive answer: needs every evidence group on the path
+					if len(evidence) == 0 {
+						ok, detail = false, "the return at "+c.P.Pos(r.Pos())+" answers positively ("+describe(v)+") without any evidence from the published state"
+						continue
+					}
+					justified := false
+					for _, alt := range evidence {
+						all := true
+						for _, grp := range alt {
+							if !MustPass(r, newCut().Edges(grp...)) {
+								all = false
+							}
+						}
+						if all {
+							justified = true
+						}
+					}
+					if !justified {
+						ok, detail = false, "the return at "+c.P.Pos(r.Pos())+" answers positively ("+describe(v)+") on a path that did not find the content in the published state"
 					}
 				}
-				if !justified {
-					ok, detail = false, "the return at "+c.P.Pos(r.Pos())+" answers positively ("+describe(v)+") on a path that did not find the content in the published state"
+				if positive && hasGate && !MustPass(r, newCut().Edges(gate...)) {
+					ok, detail = false, "the return at "+c.P.Pos(r.Pos())+" answers positively for a named descriptor without the name being marked as existing (a failed push leaves a file on disk that must stay invisible)"
 				}
 			}
-			if positive && hasGate && !MustPass(r, newCut().Edges(gate...)) {
-				ok, detail = false, "the return at "+c.P.Pos(r.Pos())+" answers positively for a named descriptor without the name being marked as existing (a failed push leaves a file on disk that must stay invisible)"
+			c.Check(R, tn+"|positive-answer-has-evidence", fn.Pos(), ok, detail)
+		}
+	}
+}
+
+// c05NameGateEdges: the edges of fn (a function of the file store) on which
+// "the descriptor is unnamed, or its name is marked as existing" holds: the
+// true edge of a nameExists-role call (a function that reads
+// nameStatus.exists), the name=="" edge of its argument, and the matching
+// edge of a boolean helper result that implies the same.
+func c05NameGateEdges(fn *ssa.Function, depth int) []Edge {
+	if fnPkgPath(fn) != pkgPath("content/file") {
+		return nil
+	}
+	var gate []Edge
+	isGateCall := func(call ssa.CallInstruction) bool {
+		g := StaticCallee(call)
+		return g != nil && fnPkgPath(g) == pkgPath("content/file") && call.Value() != nil &&
+			g.Signature.Results().Len() == 1 && types.Identical(g.Signature.Results().At(0).Type(), types.Typ[types.Bool]) &&
+			len(c05FieldUses([]*ssa.Function{g}, "~/content/file.nameStatus", "exists")) > 0
+	}
+	for _, call := range Calls(fn, func(string) bool { return true }) {
+		if _, isDefer := call.(*ssa.Defer); isDefer {
+			continue
+		}
+		if isGateCall(call) {
+			te, _ := BoolTests(fn, Aliases(call.Value()))
+			gate = append(gate, te...)
+			nameArg := call.Common().Args[len(call.Common().Args)-1]
+			eq, _ := c05EqEdges(fn, func(v ssa.Value) bool { return SameValue(v, nameArg) }, func(v ssa.Value) bool { s, ok := constString(v); return ok && s == "" })
+			gate = append(gate, eq...)
+			continue
+		}
+		// a helper with a boolean result whose false (or true) value implies the gate
+		h := c05Helper(call, fn)
+		if h == nil || depth >= 2 {
+			continue
+		}
+		sub := c05NameGateEdges(h, depth+1)
+		if len(sub) == 0 {
+			continue
+		}
+		isGateVal := func(v ssa.Value) bool {
+			cc, ok := strip(v).(*ssa.Call)
+			return ok && isGateCall(cc)
+		}
+		for k := 0; k < h.Signature.Results().Len(); k++ {
+			if !types.Identical(h.Signature.Results().At(k).Type(), types.Typ[types.Bool]) {
+				continue
+			}
+			falseImplies, trueImplies := true, true
+			atoms := RetAtoms(h, k)
+			for _, a := range atoms {
+				passes := c05AtomMustPass(a, newCut().Edges(sub...))
+				switch v := a.Val.(type) {
+				case *ssa.Const:
+					isTrue := v.Value != nil && v.Value.String() == "true"
+					if isTrue && !passes {
+						trueImplies = false
+					}
+					if !isTrue && !passes {
+						falseImplies = false
+					}
+				default:
+					switch {
+					case isGateVal(a.Val): // r is x: r true => x true => gate; r false says nothing
+						if !passes {
+							falseImplies = false
+						}
+					case func() bool {
+						u, isNot := a.Val.(*ssa.UnOp)
+						return isNot && u.Op == token.NOT && isGateVal(u.X)
+					}(): // r is !x: r false => x true => gate; r true says nothing
+						if !passes {
+							trueImplies = false
+						}
+					default:
+						if !passes {
+							falseImplies, trueImplies = false, false
+						}
+					}
+				}
+			}
+			rk := ResultOf(call, k)
+			if rk == nil || len(atoms) == 0 {
+				continue
+			}
+			te, fe := BoolTests(fn, Aliases(rk))
+			if falseImplies {
+				gate = append(gate, fe...)
+			}
+			if trueImplies {
+				gate = append(gate, te...)
 			}
 		}
-		c.Check(R, tn+"|positive-answer-has-evidence", fn.Pos(), ok, detail)
+	}
+	return gate
+}
+
+// ---------------------------------------------------------------- R5: absence is reported only for absence
+
+// c05R5NotFound: in the built-in stores a failed open/stat/remove is turned
+// into "not found" (an error wrapping errdef.ErrNotFound, or a nil error, i.e.
+// "absent") only on the edge where the failure IS the not-exist condition
+// (errors.Is(err, fs.ErrNotExist) / os.IsNotExist(err)); every other failure
+// surfaces as an error that does not wrap ErrNotFound.  graph.IndexAll skips
+// not-found nodes on purpose, so a transient I/O error disguised as not-found
+// silently drops a manifest's edges while the store opens successfully.
+func c05R5NotFound(c *Ctx) {
+	const R = "C05.R5.not-found-only-when-absent"
+	c.Expect(R, 4)
+	probes := map[string]bool{"os.Open": true, "os.Stat": true, "os.Lstat": true, "io/fs.Stat": true, "(io/fs.FS).Open": true, "os.Remove": true, "os.ReadFile": true, "io/fs.ReadFile": true}
+	isNotExist := func(v ssa.Value) bool {
+		n := sentinelName(v)
+		return n == "io/fs.ErrNotExist" || n == "os.ErrNotExist"
+	}
+	for _, pkg := range []string{"content/oci", "content/file", "internal/cas", "content/memory"} {
+		for _, fn := range c.P.FuncsOfPkg(pkg) {
+			if ErrResultIndex(fn.Signature) < 0 {
+				continue
+			}
+			storeOp := c07DescParam(fn) != nil // an operation on a descriptor: a nil error after a failed probe means "absent"
+			nf := map[ssa.Value]bool{}
+			AllInstrs(fn, func(in ssa.Instruction) {
+				if u, ok := in.(*ssa.UnOp); ok && sentinelOf(u) == "~/errdef.ErrNotFound" {
+					nf[u] = true
+				}
+			})
+			seen := map[string]int{}
+			for _, call := range Calls(fn, func(n string) bool { return probes[n] }) {
+				if _, isDefer := call.(*ssa.Defer); isDefer {
+					continue
+				}
+				e := ErrOf(call)
+				if e == nil {
+					continue
+				}
+				al := Aliases(e)
+				_, nonNil, ifs := NilTests(fn, al)
+				if len(ifs) == 0 {
+					continue // returned as is, or ignored: nothing is relabelled
+				}
+				// edges on which the failure is known to be "does not exist"
+				ct := newCut()
+				for _, i := range Ifs(fn) {
+					cond, t, _ := ifEdges(i)
+					cc, isCall := cond.(*ssa.Call)
+					if !isCall || len(cc.Call.Args) == 0 || !al[cc.Call.Args[0]] {
+						continue
+					}
+					switch CalleeName(cc) {
+					case "os.IsNotExist":
+						ct.Edges(t)
+					case "errors.Is":
+						if isNotExist(cc.Call.Args[1]) {
+							ct.Edges(t)
+						}
+					}
+				}
+				eq, _ := c05EqEdges(fn, func(v ssa.Value) bool { return al[v] }, isNotExist)
+				ct.Edges(eq...)
+				ct.Instr(call.(ssa.Instruction)) // a retry gives a new error value
+				bad := ""
+				relabels := false
+				for _, ne := range nonNil {
+					for _, rt := range c06ReturnsFrom(fn, ne, ct) {
+						for _, v := range rt.Vals {
+							if al[v] || al[strip(v)] {
+								continue
+							}
+							if len(nf) > 0 && derivesFromAny(v, nf, 0) {
+								bad = "the return at " + c.P.Pos(rt.Ret.Pos()) + " reports ErrNotFound"
+							}
+							if storeOp && ErrNilStatus(v, 0) == IsNil {
+								bad = "the return at " + c.P.Pos(rt.Ret.Pos()) + " reports no error (absent / done)"
+							}
+						}
+					}
+					// is there any relabelling at all behind the not-exist edge?  (instance counting)
+					for _, rt := range c06ReturnsFrom(fn, ne, newCut().Instr(call.(ssa.Instruction))) {
+						for _, v := range rt.Vals {
+							if (len(nf) > 0 && derivesFromAny(v, nf, 0) || storeOp && ErrNilStatus(v, 0) == IsNil) && !al[v] {
+								relabels = true
+							}
+						}
+					}
+				}
+				if !relabels && bad == "" {
+					continue
+				}
+				n := CalleeName(call)
+				seen[n]++
+				c.Check(R, fmt.Sprintf("%s|%s#%d", FnName(fn), n, seen[n]), call.Pos(), bad == "",
+					ifelse(bad == "", "ErrNotFound is produced only on the edge where the failure is fs.ErrNotExist; other failures are returned as they are",
+						"after "+n+" failed, "+bad+" although the failure was not established to be 'does not exist' (EACCES, EMFILE, EIO … are disguised as absence; IndexAll then silently skips the node and Predecessors loses its edges)"))
+			}
+		}
 	}
 }
